@@ -47,8 +47,10 @@ def gen_c12(r, n_blocks, deep=False):
         if r.random() < 0.2:
             ops.append(("dbdump",))
         c = r.random()
-        if c < (0.15 if deep else 0.35) and h >= 1:
+        if c < (0.3 if deep and h > 10 else 0.1 if deep else 0.35) and h >= 1:
             kind = r.random()
+            if deep and h > 10:
+                kind = r.choice([0.1, 0.1, 0.7, 0.8, 0.8, 0.8, 0.95])
             if kind < 0.6:
                 t = r.randrange(lo, h + 1)
             elif kind < 0.75:
@@ -118,8 +120,8 @@ def run(ctx):
         step = 700
         for s in range(0, len(groups), step):
             st = lc.decide(ctx, exe, "C12g%d" % (s // step), groups[s:s + step], MODE, known, nontrivial=nontrivial)
-            for k in tot:
-                tot[k] += st[k]
+            for k in st:
+                tot[k] = tot.get(k, 0) + st[k]
         saved = lc.KEYS
         lc.KEYS = bad_keys
         try:
@@ -129,15 +131,6 @@ def run(ctx):
         st = lc.decide(ctx, exe, "C12k", bk, MODE, known, keys=bad_keys, nontrivial=nontrivial, do_shrink=False)
         dist.update(blocks=n, deep=nd, soup=m, nonutf8=len(bk), nonutf8_verdicts=st,
                     **{"verdict_" + k: v for k, v in tot.items()})
-        tg = dict(inside=0, higher=0, below=0, zero=0)
-        for g in groups:
-            hcur = 0
-            for o in g[0]:
-                if o[0] == "commit":
-                    hcur = o[1]
-                if o[0] == "rollback":
-                    tg["zero" if o[1] == 0 else "higher" if o[1] > hcur else "inside"] += 1
-        dist["rollback_targets"] = tg
     ctx.extra["distribution"] = dist
     return ctx.finish(rule="corpus witnesses; block histories (2-7 blocks, and 11-15 blocks for the pruning window) with rollbacks to "
                            "targets inside / above / below the window and 0, repeated rollbacks, re-execution of the same blocks, a "
